@@ -287,6 +287,42 @@ func ruleC06SubRaw(c *Checker) {
 	}
 	c.check(n > 0, R, p.FuncName(asm), "returns the sub-path form", p.Pos(asm.Pos()), fmt.Sprintf("%d return(s)", n), "no return value of the assembling function depends on the sub-path")
 
+	// a package address that ends in "/" meets the separator as "///": either the splitter looks at what
+	// follows the "//" it found, or the printer looks at how the package text ends, or the URL
+	// canonicaliser refuses / trims such a path. Found as a test against the single-slash constant
+	// (HasPrefix / HasSuffix / TrimSuffix / TrimRight / a byte comparison with '/').
+	slashSite := ""
+	scan := map[*ssa.Function]bool{split: true, asm: true}
+	if mk := p.Fn(addrPkg, "makeRemoteSource"); mk != nil {
+		scan[mk] = true
+	}
+	for _, g := range sortedFuncs(scan) {
+		eachInstr(g, func(in ssa.Instruction) {
+			switch x := in.(type) {
+			case *ssa.Call:
+				o := calleeObj(x)
+				if o == nil || objPkgPath(o) != "strings" {
+					return
+				}
+				switch o.Name() {
+				case "HasPrefix", "HasSuffix", "TrimSuffix", "TrimRight", "TrimPrefix":
+					if s2, ok := constString(x.Call.Args[1]); ok && s2 == "/" {
+						slashSite = p.FuncName(g) + " (strings." + o.Name() + " at " + p.Pos(x.Pos()) + ")"
+					}
+				}
+			case *ssa.BinOp:
+				if x.Op == token.EQL || x.Op == token.NEQ {
+					if k, ok := constInt(x.Y); ok && k == '/' {
+						if _, isByte := x.X.(*ssa.Lookup); isByte {
+							slashSite = p.FuncName(g) + " (byte test at " + p.Pos(x.Pos()) + ")"
+						}
+					}
+				}
+			}
+		})
+	}
+	c.check(slashSite != "", R, p.FuncName(split), "package text ending in a slash", p.Pos(split.Pos()), "the slash next to the separator is looked at in "+slashSite, "a package address ending in \"/\" (git::https://example.com/repo/) followed by \"//\" and a sub-path reads back cut one slash early — package without its slash, sub-path with a leading one, which is refused: neither the splitter, nor the printer, nor the URL canonicaliser looks at a single slash next to the separator")
+
 	// sanitisers refuse the separators the splitter stops at
 	sans := p.subPathSanitisers()
 	for _, fn := range sortedFuncs(func() map[*ssa.Function]bool {
